@@ -444,6 +444,28 @@ def pick_fn(rnd):
     return FN(r)
 
 
+def arnoldi_gap_probe():
+    """steering only (the defect is C15's arnoldi_stop_threshold_gap): does arnoldi return a unit basis column with an uncomputed (zero)
+    Hessenberg column on a graded spectrum?"""
+    from cola import ops
+    from cola.linalg.decompositions.arnoldi import arnoldi
+    lam = np.array([1.30761796e-07, 5.07618185e-07, 2.61726974e-05, 3.91128569e-01])
+    g_ = np.random.default_rng(5)
+    for _ in range(20):
+        Q, _r = np.linalg.qr(g_.standard_normal((4, 4)))
+        S = (Q * lam) @ Q.T
+        x = g_.standard_normal((4, 1))
+        try:
+            Qa, H, _i = arnoldi(A=ops.Dense((S + S.T) / 2), start_vector=x, max_iters=1000, tol=1e-6)
+            Qd, Hd = np.asarray(Qa.to_dense())[0][:, :-1], np.asarray(H.to_dense())[0][:-1]
+            for j in range(Hd.shape[1]):
+                if np.abs(Hd[:, j]).max() == 0 and np.linalg.norm(Qd[:, j]) > 0.5:
+                    return True
+        except Exception:
+            return True
+    return False
+
+
 def c05_region(u, under=False):
     """complex scalar multiples of the identity keep the SelfAdjoint annotation (recorded under C05): a BlockDiag made only of such blocks
     takes the self-adjoint shortcut in its left product, so its transpose / adjoint acts wrongly; the results of the Identity / ScalarMul
@@ -554,6 +576,11 @@ def run(ctx):
     from cola import ops
     fnd = findings()
     present = {f["flag"] for f in fnd if f["present"]}
+    steer_arnoldi_gap = arnoldi_gap_probe()
+    try:      # steering only (C05 scalar_keeps_annotations): does a complex multiple of a SelfAdjoint operator still report SelfAdjoint?
+        steer_scalar_keeps_sa = bool((1j * cola.SelfAdjoint(ops.Dense(np.eye(2, dtype=np.complex128)))).isa(cola.SelfAdjoint))
+    except Exception:
+        steer_scalar_keeps_sa = True
     rnd = ctx.rng
     g = L.nprng(rnd)
     mism, samples = [], []
@@ -768,7 +795,9 @@ def run(ctx):
         # spectrum classes: Hermitian declared PSD / declared SelfAdjoint only (Auto then takes the general Eig rule) / general
         # diagonalisable; "_rep" = REPEATED eigenvalues (multiplicity 2-3) with eigenspaces in general position; "kronsq" = S (x) S
         cls = rnd.choice(["psd", "psd", "gen", "psd0", "psd_rep", "sa", "sa_rep", "sa_rep", "gen_rep", "kronsq",
-                          "kron3", "kron3", "ksum3", "prod3", "psd_blocks", "shift_sing", "shift_sing"])
+                          "kron3", "kron3", "ksum3", "prod3", "psd_blocks", "shift_sing", "shift_sing", "psd_graded", "psd_graded", "psd_graded", "csa", "csa"])
+        if cls == "psd_graded" and fn.domain != "any":
+            fn = rnd.choice([FN("exp"), FN("user"), FN("cuser")])      # functions regular at 0 (log, sqrt, negative powers amplify the Krylov tolerance)
         if cls == "prod3" and fn.domain != "any":
             cls = "kron3"
         if cls == "psd0" and fn.domain != "any":
@@ -785,10 +814,38 @@ def run(ctx):
         if cls == "psd0" and alg in ("Lanczos", "Arnoldi") and "krylov_mask_kills_f0" in present and complex(fn.np(np.array([0.0]))[0]) != 0:
             bump(skipped, "krylov_mask_kills_f0")
             cls = "psd"
-        herm = not cls.startswith("gen")
+        if cls == "csa":
+            # c * SelfAdjoint(H) with a COMPLEX scalar c: a normal, non-Hermitian operator. The product keeps H's SelfAdjoint annotation
+            # (recorded under C05, scalar_keeps_annotations); only rules that consume isa(SelfAdjoint) are misled by it - the explicit
+            # Eigh / Lanczos algorithms - while Auto keys on PSD and must take the general rule
+            cplx, dt = True, "complex128"
+            if alg in ("Eigh", "Lanczos") and steer_scalar_keeps_sa:
+                bump(skipped, "c05_scalar_keeps_annotations")
+                alg = rnd.choice(["Auto", "Auto", "none", "Eig", "Arnoldi"])
+        if cls == "psd_graded" and rnd.random() < 0.6:
+            alg = "Lanczos"
+        if cls == "psd_graded" and alg == "Arnoldi" and steer_arnoldi_gap:
+            # recorded under C15 (arnoldi_stop_threshold_gap): on a graded spectrum arnoldi stops with a unit basis column whose Hessenberg
+            # column was never computed; the zero-eigenvalue mask then drops that component
+            bump(skipped, "c15_arnoldi_stop_threshold_gap")
+            alg = "Lanczos"
+        herm = not (cls.startswith("gen") or cls == "csa")
         comp_build = None
         if cls in ("kron3", "ksum3", "prod3"):
             comp_build, M, lam, n = composite(rnd, g, cls, cplx)
+        elif cls == "csa":
+            n = rnd.randint(2, 5)
+            lamH = np.array(L.separated(rnd, n, lo=0.4, gap=0.3, grow=1.3)) * (np.array([rnd.choice([-1, 1]) for _ in range(n)]) if fn.domain == "any" else 1)
+            Qh = L.rand_unitary(g, n, True)
+            Hm = (Qh * lamH) @ Qh.conj().T
+            Hm = (Hm + Hm.conj().T) / 2
+            cval = rnd.uniform(0.5, 2.0) * np.exp(1j * (rnd.uniform(-3.1, 3.1) if fn.domain == "any" else rnd.choice([-1, 1]) * rnd.uniform(0.3, 1.2)))
+            M = cval * Hm
+            lam = None
+
+            def comp_build(dt_, Hm=Hm, cval=cval):
+                Hop = cola.SelfAdjoint(ops.Dense(Hm.astype(np.complex128)))
+                return (complex(cval) * Hop) if rnd.random() < 0.5 else (Hop * complex(cval))
         elif cls == "shift_sing":
             # lazily assembled positive definite operator B + c I whose part B is SINGULAR (low-rank Gram matrix, path-graph Laplacian,
             # block diagonal with a zero block): the sum has no zero eigenvalue although B has
@@ -851,6 +908,11 @@ def run(ctx):
                         vals = spectrum(rnd, nd, fn.domain, cplx)
                 lam = np.array(list(vals) + [vals[rnd.randrange(nd)] for _ in range(n - nd)])
                 rnd.shuffle(lam)
+            elif cls == "psd_graded":
+                # graded spectrum: smallest / largest eigenvalue between 1e-3 and 1e-12 (genuine eigenvalues far below tol * |lambda|_max)
+                n = max(n, 3)
+                ratio = 10.0 ** (-rnd.uniform(3, 12))
+                lam = np.array(sorted([ratio ** rnd.random() for _ in range(n - 2)] + [ratio, 1.0])) * 10.0 ** rnd.uniform(-1, 1)
             elif herm:
                 lam = np.array(sorted(L.separated(rnd, n, lo=0.3, gap=0.25, grow=1.3)))
                 if cls == "psd0":
@@ -875,9 +937,15 @@ def run(ctx):
             cap = rnd.choice(["at", "above", "default", "below"])
             if alg == "Arnoldi" and cap == "default" and rnd.random() < 0.8:
                 cap = "above"     # the default pads to 1000 columns: slow, sampled rarely
+            if cls == "psd_graded" and cap == "below":
+                cap = "at"
             mi = dict(at=n, above=n + rnd.randint(1, 3), default=None, below=max(1, n - 1))[cap]
             if mi is not None:
                 kw["max_iters"] = mi
+            if cls == "psd_graded":
+                tk = rnd.choice([None, None, 1e-3, 1e-9])      # default and explicit tolerances
+                if tk is not None:
+                    kw["tol"] = tk
         algspec = None if alg == "none" else dict(cls=alg, kwargs=kw)
         isint, kk = (False, 0)
         if fn.name in ("pow", "sqrt", "isqrt"):
@@ -983,6 +1051,8 @@ def run(ctx):
             sc = max(1.0, float(np.abs(ref).max()))
             err = float(np.abs(Y - ref).max())
             tolC = 1e-4 if inv_krylov else (1e-8 if not krylov else 1e-7)
+            if krylov and cls == "psd_graded":
+                tolC = max(1e-7, 10 * kw.get("tol", 1e-6))      # the Krylov run may stop at its tolerance: accuracy of that order
             if not err <= tolC * sc * max(1.0, float(np.linalg.cond(D)) if (fn.domain != "any") else 1.0):
                 bad.append(f"|F@X - f(A)@X| = {err:.3g} (scale {sc:.3g})")
             if fn.name == "sqrt" and not krylov:
@@ -1115,6 +1185,6 @@ def run(ctx):
              "and the Krylov plumbing model with the factorisation as oracle data; distinct by case hash",
         samples=samples, mismatches=mism, findings=fnd,
         extra=dict(histogram=hist, skipped_spoiled_region=skipped, unary_cases_in_coq=len(uterms), krylov_columns_in_coq=len(kterms), auto_rule_observations=len(auterms),
-                   unreachable_on_numpy_backend=unreachable,
+                   unreachable_on_numpy_backend=unreachable, steering=dict(c15_arnoldi_stop_threshold_gap=steer_arnoldi_gap, c05_scalar_keeps_selfadjoint=steer_scalar_keeps_sa),
                    notes=["exp(KronSum) / pow(Kronecker) structural rules are only selected with an explicit alg argument (without it the dense rule runs): values agree, "
                           "recorded as a cost observation, not a finding", "LanczosUnary pops 'start_vector' from its stored kwargs at the first product: no effect on values"]))
